@@ -7,6 +7,7 @@
 import StathamModel.SerJson
 import StathamModel.Lemmas.SerOk
 import StathamModel.Lemmas.ParseNF
+import StathamModel.Lemmas.SerSem
 import StathamModel.Lemmas.CallVerdict
 import StathamModel.Lemmas.EqRefl
 import StathamModel.Tie
@@ -174,6 +175,34 @@ theorem C03_meaning_parsed (env : Env) (cx : PCtx) (s : Schema) (v : JVal)
     (parseE cx s).accepts env v = D6.valid env typeHasObject (toSchema (parseE cx s)) v :=
   C03_partial_meaning env cx _ v (parse_NF cx s hn) hg hv hnc
 
+/-- **Renamed properties.**  The same conclusion for every tree in normal form *up to the attribute names of properties*
+    (`NFn`: at every node, the parser's rebuilt node and the node agree once property keys are reduced to JSON name and
+    `required` flag) — the trees one writes in the DSL with attribute names of one's own choosing
+    (`kind = Property(String(), source="class")`).  Proof: `acc_forget` (verdicts ignore attribute names: the element looks a
+    member up by the property's JSON name, the attribute name only labels the result) turns the syntactic equation into the
+    semantic node equation `NFS`, under which `ser_ok_sem` runs the same induction as `ser_ok`. -/
+theorem C03_partial_meaning_renamed (env : Env) (cx : PCtx) (e : Elem) (v : JVal)
+    (hn : NFn cx e) (hg : Good cx (toSchema e) = true) (hv : distinctKeys v = true)
+    (hnc : e.call env (.val v) ≠ .crash) :
+    e.accepts env v = D6.valid env typeHasObject (toSchema e) v := by
+  have hrel := (ser_ok_names env cx e hn hg).1 v hv
+  rw [accepts_eq]
+  unfold Elem.accV
+  have hnc' : e.acc env (.val v) ≠ .crash := by
+    rw [← call_verdict]
+    intro h
+    apply hnc
+    cases hc : e.call env (.val v) <;> simp_all [Res.verdict]
+  rw [hrel.eq_of_ne_crash hnc']
+  cases D6.valid env typeHasObject (toSchema e) v <;> rfl
+
+/-- the most general form: the node equation on verdicts (`NFS`) is all that is used -/
+theorem C03_partial_meaning_sem (env : Env) (cx : PCtx) (e : Elem) (v : JVal)
+    (hn : NFS env cx e) (hg : Good cx (toSchema e) = true) (hv : distinctKeys v = true)
+    (hnc : e.acc env (.val v) ≠ .crash) :
+    e.accV env v = V.ofBool (D6.valid env typeHasObject (toSchema e) v) :=
+  ((ser_ok_sem env cx e hn hg).1 v hv).eq_of_ne_crash hnc
+
 /-! non-vacuity: a class with a required array-valued property is in normal form and its serialization is `Good` -/
 def ci0 : CharInfo := { isalnum := isAsciiAlnum, uname := fun _ => "unknown" }
 def cx0 : PCtx := { ci := ci0 }
@@ -194,6 +223,25 @@ theorem nf_obj : NF cx0 eObj := by
   rw [NF]
   exact ⟨⟨nofun, fun _ => rfl, trivial, trivial⟩, trivial, trivial, trivial, ⟨nf_arr, trivial⟩, trivial, trivial, trivial, trivial, trivial⟩
 theorem good_obj : Good cx0 (toSchema eObj) = true := by decide +kernel
+
+/-! non-vacuity for the renamed form: `kind = Property(String(), source="class")` is not a parser image (the parser would call
+    the attribute `class_`), yet it is in normal form up to names -/
+def eStr : Elem := Elem.leaf .string
+def eRenamed : Elem := .mk (.object "A") { hasProps := true } [] none none
+  [({ name := "kind", required := true, source := some "class" }, eStr)] [] none none [] []
+theorem nfn_str : NFn cx0 eStr := by
+  unfold eStr Elem.leaf
+  rw [NFn]
+  exact ⟨⟨nofun, fun _ => rfl⟩, trivial, trivial, trivial, trivial, trivial, trivial, trivial, trivial, trivial⟩
+theorem nfn_renamed : NFn cx0 eRenamed := by
+  unfold eRenamed
+  rw [NFn]
+  exact ⟨⟨nofun, fun _ => rfl⟩, trivial, trivial, trivial, ⟨nfn_str, trivial⟩, trivial, trivial, trivial, trivial, trivial⟩
+theorem good_renamed : Good cx0 (toSchema eRenamed) = true := by decide +kernel
+/-- and it is *not* in the parser's normal form: the parser would name the attribute `class_` -/
+theorem not_nf_renamed : (assembleK cx0 (nodeSKw eRenamed.cls eRenamed.kw eRenamed.props) (nodeKids eRenamed)).props.map (·.1.name) = ["class_"] := by
+  decide +kernel
+
 
 /-- why `MeaningStatement` needs the normal-form hypothesis at all is *not* a defect of the serializer: it is what
     the proof technique covers.  Why it needs `Good`: the C01 counter-witnesses, e.g. a float `multipleOf` — the tree
